@@ -40,6 +40,16 @@ CHECKS = {
                 assumptions=['declared cell types are derived by simqb from the routine symbol tables of the debug section',
                              'statement boundaries come from the debug map (CASE clause element records and the synthesised END SELECT of an empty CASE body are not boundaries)',
                              'the abstract interpretation named in the quantifier is not performed (different technique); the claim is the concrete-run monitor']),
+    'C20': dict(mod='c20', level='exploration',
+                rule=('scenario = program x config; baseline = fresh interpreter (hash seed 0, cwd /verif, real clock, no '
+                      'history) compiling it and running it twice; then one fresh interpreter per drawn environment: hash '
+                      'seed, cwd, patched wall clock, and a history of 0-6 earlier operations in the same process '
+                      '(compilations of other programs, compilations that are rejected, compilations aborted by an '
+                      'exception raised at a seeded line event inside qbee.*, VM runs, debugger sessions). Compared: '
+                      'acceptance, sections 1-4, listing, and for execution device history, outcome and tick count. '
+                      'evaluations = interpreter processes; distinct_nontrivial = distinct (text, config, environment) digests'),
+                assumptions=['the debug section (gzip+pickle) is excluded, as the property says',
+                             'two compilations interleaved on two threads are not simulated (no thread-safety claim)']),
 }
 
 
